@@ -93,6 +93,14 @@ class World:
             return ("rec", x._cls, dict(x._fields))
         if isinstance(x, (bool, int, str, float)) or x is None:
             return x
+        if isinstance(x, list) and all(isinstance(e, (StaticProxy, RecProxy)) for e in x):
+            # the argument of multiprocessing.connection.wait(): readers + sentinels
+            objs = [("o", e._name) for e in x if isinstance(e, StaticProxy)]
+            mask = 0
+            for e in x:
+                if isinstance(e, RecProxy) and e._cls == "Sentinel":
+                    mask |= 1 << int(e._fields["i"])
+            return ("tuple", ["waitset", ("list", objs), mask])
         for ty, conv in self.sl.from_python:
             if isinstance(x, ty):
                 return conv(self, x)
@@ -134,7 +142,7 @@ class World:
         def enabled():
             with self.lock:
                 return [o.label for o in outcomes() if self.conc(o.guard)]
-        if model.fused(method):
+        if model.fused(method, t):
             with self.lock:
                 outs = [o for o in outcomes() if self.conc(o.guard)]
                 if len(outs) != 1:
@@ -259,6 +267,10 @@ class StaticProxy:
         mask = snap._fields["mask"]
         return [self._w.to_python(("rec", cls, {"i": i})) for i in range(n) if (mask >> i) & 1]
 
+    def items(self):
+        # only evaluated inside debug-message f-strings (logging is opaque in the model): no visible operation
+        return []
+
     def __call__(self, *a, **k):
         return self._call("__call__", *a, **k)
 
@@ -295,6 +307,12 @@ class RecProxy:
 
     def __call__(self, *a, **k):
         return self._meth("__call__", *a, **k)
+
+    def __contains__(self, item):
+        fn = self._w.comp.rec_attrs.get((self._cls, "__contains__"))
+        if fn is None:
+            raise Divergence(f"real code tests membership in a {self._cls}")
+        return bool(self._w.ev_rexpr(fn(self._consts(), self._w.from_python(item))))
 
     def __eq__(self, other):
         return isinstance(other, RecProxy) and (other._cls, other._fields) == (self._cls, self._fields)
